@@ -56,6 +56,11 @@ def shouldRoute (cfg : Cfg) (h : Str) (hdr : Hdr) : Bool :=
     | some al => al.contains h
     | none => !(blockEntries cfg).contains h && external cfg h
 
+/-- A direct question to the filter is answered (it cannot raise: `DecObs.answer` is a `Bool`)
+    and the answer is the routing rule. -/
+def decisionsOk (cfg : Cfg) (l : List DecObs) : Bool :=
+  l.all fun d => d.answer == shouldRoute cfg d.host d.hdr
+
 /-- Reference breaker, driven by what was observed. -/
 structure Ref where
   streak : Nat            -- consecutive gateway-side failures
